@@ -135,4 +135,54 @@ def trimPrefix (s pre : Bytes) : Bytes := if hasPrefix s pre then s.drop pre.len
 /-- `strings.EqualFold` / `ToUpper(x) == ToUpper(y)` on ASCII -/
 def equalFold (a b : Bytes) : Bool := toUpper a = toUpper b
 
+/-- the last step of `parseRcptTo` (LMTP): what follows the last `@` in ASCII lower case — domains are case-insensitive
+(RFC 5321 §2.4), local parts are left as they are -/
+def lowerDomain (a : Bytes) : Bytes :=
+  let dom := a.reverse.takeWhile (· ≠ 64)
+  if dom.length = a.length then a
+  else (a.reverse.drop dom.length).reverse ++ toLower dom.reverse
+
+theorem takeWhile_prefix {α : Type} (p : α → Bool) : ∀ (xs : List α) (y : α) (ys : List α), (∀ x ∈ xs, p x = true) → p y = false →
+    (xs ++ y :: ys).takeWhile p = xs
+  | [], y, ys, _, hy => by simp [hy]
+  | x :: xs, y, ys, hx, hy => by
+    simp only [List.cons_append, List.takeWhile, hx x (by simp)]
+    rw [takeWhile_prefix p xs y ys (fun z hz => hx z (by simp [hz])) hy]
+
+theorem lowerDomain_at (l d : Bytes) (hd : 64 ∉ d) : lowerDomain (l ++ 64 :: d) = l ++ 64 :: toLower d := by
+  unfold lowerDomain
+  have hr : (l ++ 64 :: d).reverse = d.reverse ++ 64 :: l.reverse := by simp
+  have htw : (l ++ 64 :: d).reverse.takeWhile (· ≠ 64) = d.reverse := by
+    rw [hr]
+    apply takeWhile_prefix
+    · intro x hx
+      have : x ∈ d := by simpa using hx
+      simp only [ne_eq, decide_not, Bool.not_eq_eq_eq_not, Bool.not_true, decide_eq_false_iff_not]
+      intro h; subst h; exact hd this
+    · simp
+  simp only [htw]
+  have hlen : ¬ d.reverse.length = (l ++ 64 :: d).length := by simp; omega
+  simp only [hlen, if_false, hr]
+  have : (d.reverse ++ 64 :: l.reverse).drop d.reverse.length = 64 :: l.reverse := by
+    rw [List.drop_left]
+  rw [this]
+  simp
+
+/-- an address without `@` is left alone -/
+theorem takeWhile_all {α : Type} (p : α → Bool) : ∀ (xs : List α), (∀ x ∈ xs, p x = true) → xs.takeWhile p = xs
+  | [], _ => rfl
+  | x :: xs, h => by
+    simp only [List.takeWhile, h x (by simp)]
+    rw [takeWhile_all p xs (fun z hz => h z (by simp [hz]))]
+
+theorem lowerDomain_noat (a : Bytes) (h : 64 ∉ a) : lowerDomain a = a := by
+  unfold lowerDomain
+  have htw : a.reverse.takeWhile (· ≠ 64) = a.reverse := by
+    apply takeWhile_all
+    intro x hx
+    have : x ∈ a := by simpa using hx
+    simp only [ne_eq, decide_not, Bool.not_eq_eq_eq_not, Bool.not_true, decide_eq_false_iff_not]
+    intro h'; subst h'; exact h this
+  simp only [htw, List.length_reverse, if_true]
+
 end Raven.GoStr
